@@ -692,8 +692,8 @@ theorem asFound_form_dup :
 
 /-- C10-6: the reader upload is sent empty on the retry -/
 theorem asFound_upload_emptied :
-    (build .asFound exCfg exUpload 0).body = .multipart [] [⟨[112], [110], [116], [120]⟩] ∧
-    (build .asFound exCfg exUpload 1).body = .multipart [] [⟨[112], [110], [116], []⟩] := by
+    (build .asFound { exCfg with form := [] } exUpload 0).body = .multipart [] [⟨[112], [110], [116], [120]⟩] ∧
+    (build .asFound { exCfg with form := [] } exUpload 1).body = .multipart [] [⟨[112], [110], [116], []⟩] := by
   decide
 
 /-- the repaired middleware on the same inputs (instances of `attempts_identical`) -/
